@@ -64,14 +64,14 @@ MkInst(g, oe, qe, qn, mv) ==
     lN |-> [st \in sts |-> [t \in 0..(T - 1) |-> IF t < T - 1 THEN QNDef[qn[<<st, t>>]][1] ELSE 0]],
     tiE |-> [st \in GEdges(g) |-> [t \in 0..(T - 1) |-> IF qe[<<st, t>>] = 3 THEN 0 ELSE 1]],
     skipNE |-> [st \in sts |-> [t \in 0..(T - 1) |-> FALSE]],
-    tr |-> [move |-> mv[1], moveNE |-> mv[2], back |-> 0] ]
+    tr |-> [move |-> mv[1], moveNE |-> mv[2], back |-> 0], hasTT |-> FALSE, tt |-> << >> ]
 
 Init ==
   \E g \in Graphs, oe \in NodeModes, ne \in NEs, w \in Widths, cut \in Cuts, mv \in Moves, dbg \in Debugs :
     \E qe \in Sample(g \in ExhGraphs /\ oe /\ ~ne, [CellsE(g, oe) -> QE]) :
       \E qn \in (IF ne THEN Sample(FALSE, [CellsN(g, oe) -> QN]) ELSE {[x \in CellsN(g, oe) |-> 0]}) :
         /\ I = MkInst(g, oe, qe, qn, MoveDefs[mv])
-        /\ cf = [onlyEdges |-> oe, ne |-> ne, W |-> w, neLen |-> -1, neMax |-> 100, secondOrder |-> FALSE, slack |-> 0, tables |-> TRUE, debug |-> dbg,
+        /\ cf = [onlyEdges |-> oe, ne |-> ne, W |-> w, neLen |-> -1, neMax |-> 100, secondOrder |-> FALSE, slack |-> 0, tables |-> TRUE, oracle |-> TRUE, debug |-> dbg,
                  maxDist |-> CutDefs[cut].maxDist, maxDistInit |-> CutDefs[cut].maxDistInit,
                  minlp |-> CutDefs[cut].minlp]
         /\ M = NewMatcher /\ R = [path |-> << >>, idx |-> 0, early |-> -1] /\ hist = << >>
